@@ -16,16 +16,16 @@ import (
 )
 
 type Engine struct {
-	repo    string
-	prog    *ssa.Program
-	pkgs    map[string]*packages.Package
-	allPkgs []*packages.Package
-	spkgs   map[string]*ssa.Package
-	cs      *Contracts
-	modsets map[*ssa.Function]*ModSet
-	loadS   float64
-	funcs   map[string]*ssa.Function // contract key -> function
-	sentinels map[string]int         // package-level error variables initialised by errors.New
+	repo      string
+	prog      *ssa.Program
+	pkgs      map[string]*packages.Package
+	allPkgs   []*packages.Package
+	spkgs     map[string]*ssa.Package
+	cs        *Contracts
+	modsets   map[*ssa.Function]*ModSet
+	loadS     float64
+	funcs     map[string]*ssa.Function // contract key -> function
+	sentinels map[string]int           // package-level error variables initialised by errors.New
 }
 
 var repoPkgs = []string{"./internal/state", "./internal/storage", "./internal/spynode", "./internal/handlers", "./pkg/client"}
@@ -251,9 +251,9 @@ func (e *Engine) VerifyFunc(fn *ssa.Function, fc *FuncContract) (v *FnVerifier) 
 		env := fr.specEnv(st, nil)
 		g, extra := env.boolTerm(rq.Expr)
 		for _, x := range extra {
-			v.smt.assert(x)
+			v.smt.assertG(rq.Group, x)
 		}
-		v.smt.assert(g)
+		v.smt.assertG(rq.Group, g)
 	}
 	// monitor operations start with the lock free unless stated otherwise
 	if fc.Atomic != "" {
@@ -352,7 +352,10 @@ func (o *Obligation) Query() string {
 	v := o.Unit
 	var b strings.Builder
 	b.WriteString(v.smt.Prelude())
-	for _, a := range v.smt.asserts[:o.NAssert] {
+	for i, a := range v.smt.asserts[:o.NAssert] {
+		if g := v.smt.groups[i]; g != "" && g != o.Group {
+			continue
+		}
 		b.WriteString("(assert ")
 		b.WriteString(a)
 		b.WriteString(")\n")
